@@ -484,6 +484,14 @@ def spec_of_expr(e, fn, aliases, depth=0):
     if k == "Call":
         callee = e.get("callee", "")
         sc = short(callee)
+        if sc == "from_iter" and len(e["args"]) == 1:
+            # Vec::from_iter(0..n) / FromIterator::from_iter(0..n) is (0..n).collect()
+            a_ = nf.strip(e["args"][0])
+            while a_["k"] == "MethodCall" and a_["name"] in ("into_iter", "iter") and not a_["args"]:
+                a_ = nf.strip(a_["recv"])
+            m_ = re.match(r"^std::ops::Range\{start:0, end:(.*)\}$", nf.nf(a_, casts=True, res=R))
+            if m_:
+                return Spec("iota", "", _norm(m_.group(1), aliases))
         if sc == "from_elem" and len(e["args"]) == 2:
             return Spec("fill", _norm(nf.nf(e["args"][0], casts=True, res=R), aliases), _norm(nf.nf(e["args"][1], casts=True, res=R), aliases))
         if (sc == "new" and not e["args"]) or (sc == "with_capacity" and len(e["args"]) == 1 and "Vec" in callee):
